@@ -19,6 +19,7 @@ import os
 import sys
 
 MODULES = ['operator', 'list', 'logic', 'string', 'inquiry']
+CHECKER_CLASSES = ['StringExactChecker', 'StringFuzzyChecker']
 
 CMP = {ast.Eq: 'cmpEq', ast.NotEq: 'cmpNe', ast.Lt: 'cmpLt', ast.LtE: 'cmpLe', ast.Gt: 'cmpGt', ast.GtE: 'cmpGe',
        ast.In: 'cmpIn', ast.NotIn: 'cmpNotIn'}
@@ -112,10 +113,28 @@ class Translator:
         if isinstance(e, ast.Compare) and len(e.ops) == 1 and isinstance(e.ops[0], (ast.Is, ast.IsNot)) and \
                 isinstance(e.comparators[0], ast.Constant) and e.comparators[0].value is None:
             return '(%s %s)' % ('isNoneM' if isinstance(e.ops[0], ast.Is) else 'isNotNoneM', self.expr(e.left, env, cname))
+        if isinstance(e, ast.Compare) and len(e.ops) == 1 and isinstance(e.ops[0], (ast.NotEq, ast.Eq)) and \
+                isinstance(e.left, ast.Call) and isinstance(e.left.func, ast.Name) and e.left.func.id == 'type' and \
+                len(e.left.args) == 1 and isinstance(e.comparators[0], ast.Name) and e.comparators[0].id == 'str':
+            t = '(typeIsNotStrM %s)' % self.expr(e.left.args[0], env, cname)
+            return t if isinstance(e.ops[0], ast.NotEq) else '(pyNot %s)' % t
+        if isinstance(e, ast.List) and not e.elts:
+            return 'cEmptyList'
+        if isinstance(e, ast.Subscript) and isinstance(e.slice, ast.Slice):
+            sl = e.slice
+            if isinstance(sl.lower, ast.Constant) and sl.lower.value == 1 and isinstance(sl.upper, ast.UnaryOp) and \
+                    isinstance(sl.upper.op, ast.USub) and isinstance(sl.upper.operand, ast.Constant) and \
+                    sl.upper.operand.value == 1 and sl.step is None:
+                return '(strSlice1m1M %s)' % self.expr(e.value, env, cname)
+            raise Untranslatable('slice')
+        if isinstance(e, ast.Subscript) and isinstance(e.slice, ast.UnaryOp) and isinstance(e.slice.op, ast.USub) and \
+                isinstance(e.slice.operand, ast.Constant) and isinstance(e.slice.operand.value, int):
+            return '(strIndexM %s (%d))' % (self.expr(e.value, env, cname), -e.slice.operand.value)
         if isinstance(e, ast.Subscript):
             return '(subscriptM %s %s)' % (self.expr(e.value, env, cname), self.expr(e.slice, env, cname))
         if isinstance(e, ast.Attribute) and isinstance(e.value, ast.Name) and e.value.id in env and e.value.id != 'self':
-            return '(attrM %s "%s")' % (env[e.value.id], e.attr)
+            prim = 'attrPolicyM' if e.attr in ('start_tag', 'end_tag') else 'attrM'
+            return '(%s %s "%s")' % (prim, env[e.value.id], e.attr)
         if isinstance(e, ast.ListComp) and len(e.generators) == 1 and not e.generators[0].ifs and \
                 isinstance(e.generators[0].target, ast.Name):
             g = e.generators[0]
@@ -141,6 +160,8 @@ class Translator:
             if isinstance(f, ast.Name):
                 if f.id == 'isinstance' and len(e.args) == 2 and isinstance(e.args[1], ast.Name):
                     return '(isinstanceM %s "%s")' % (self.expr(e.args[0], env, cname), e.args[1].id)
+                if f.id == 'getattr' and len(e.args) == 3:
+                    return '(getattrDynM %s %s %s)' % tuple(self.expr(a, env, cname) for a in e.args)
                 if f.id == 'getattr' and len(e.args) == 2:
                     name = None
                     a1 = e.args[1]
@@ -159,6 +180,14 @@ class Translator:
                 if f.id in env and not e.args:
                     return '(callValue %s)' % env[f.id]
                 raise Untranslatable('call of %s' % f.id)
+            if isinstance(f, ast.Attribute) and isinstance(f.value, ast.Name) and f.value.id == 'self' and \
+                    self.method(cname, f.attr) is not None:
+                m = self.method(cname, f.attr)
+                # a method of the same object consisting of one `return`: inlined like a module-level helper
+                shim = ast.FunctionDef(name=m.name, args=ast.arguments(posonlyargs=[], args=m.args.args[1:], kwonlyargs=[],
+                                                                      kw_defaults=[], defaults=[]), body=m.body,
+                                       decorator_list=[])
+                return self.inline(shim, e.args, env, cname)
             if isinstance(f, ast.Attribute) and f.attr == 'satisfied' and len(e.args) == 2:
                 return '(methSatisfied %s %s %s)' % (self.expr(f.value, env, cname), self.expr(e.args[0], env, cname),
                                                     self.expr(e.args[1], env, cname))
@@ -234,6 +263,22 @@ class Translator:
         sig = ' '.join('(self_%s : V)' % a for a in attrs)
         return attrs, 'def sat_%s %s (what inquiry : V) : M :=\n    %s\n' % (cname, sig, body)
 
+    def checker_method(self, cname, mname):
+        """a method `mname(self, a, b, ...)` of a checker class: one Lean parameter per Python parameter"""
+        f = self.method(cname, mname)
+        if f is None:
+            raise Untranslatable('no %s method' % mname)
+        params = [a.arg for a in f.args.args]
+        if params[:1] != ['self']:
+            raise Untranslatable('signature %r' % params)
+        self.attrs, self.fresh = set(), 0
+        env = {p: '(pure p_%s)' % p for p in params[1:]}
+        body = self.block(f.body, env, cname)
+        if self.attrs:
+            raise Untranslatable('instance attributes %r' % sorted(self.attrs))
+        sig = ' '.join('p_%s' % p for p in params[1:])
+        return '%s_%s (%s : V) : M :=\n    %s\n' % (mname, cname, sig, body)
+
 
 def translate(repo):
     out = ['import Model.PyPrim', '/-! GENERATED by harness/pytolean.py from vakt/rules/*.py - do not edit -/',
@@ -268,6 +313,38 @@ def translate(repo):
     return '\n'.join(out) + '\n', translated, untranslated
 
 
+def translate_checkers(repo):
+    out = ['import Model.PyPrim', '/-! GENERATED by harness/pytolean.py from vakt/checker.py - do not edit -/',
+           'set_option linter.unusedVariables false', 'namespace Vakt.GenCheckers', 'open Vakt Vakt.PyPrim', '']
+    checkers, unchecked = [], []
+    ctree = ast.parse(open(os.path.join(repo, 'vakt', 'checker.py')).read())
+    ctr = Translator(ctree)
+    for cname in CHECKER_CLASSES:
+        try:
+            text = ctr.checker_method(cname, 'fits')
+            out.append('/-- `vakt.checker.%s.fits` -/' % cname)
+            out.append('def ' + text)
+            checkers.append(cname)
+        except Untranslatable as e:
+            unchecked.append((cname, str(e)))
+    out.append('/-- the checker classes whose `fits` was translated -/')
+    out.append('def translatedCheckers : List String := [%s]' % ', '.join('"%s"' % c for c in checkers))
+    out.append('def untranslatedCheckers : List (String × String) := [%s]' % ', '.join(
+        '("%s", "%s")' % (c, r.replace('"', "'")) for c, r in unchecked))
+    out.append('')
+    out.append('end Vakt.GenCheckers')
+    return '\n'.join(out) + '\n', [('checker', c, []) for c in checkers], [('checker', c, r) for c, r in unchecked]
+
+
+def _write(path, text):
+    os.makedirs(os.path.dirname(path), exist_ok=True)
+    old = open(path).read() if os.path.exists(path) else None
+    if old != text:
+        with open(path, 'w') as f:
+            f.write(text)
+    return old != text
+
+
 def regenerate(repo, lean_dir):
     """(changed, translated, untranslated); never raises: a failure is written into the file as an empty translation"""
     path = os.path.join(lean_dir, 'Gen', 'Rules.lean')
@@ -278,16 +355,23 @@ def regenerate(repo, lean_dir):
                 'namespace Vakt.GenRules\ndef translated : List (String × List String) := []\n'
                 'def untranslated : List (String × String) := []\nend Vakt.GenRules\n' % str(e).replace('-/', '- /')[:300])
         translated, untranslated = [], [('*', '*', str(e))]
-    os.makedirs(os.path.dirname(path), exist_ok=True)
-    old = open(path).read() if os.path.exists(path) else None
-    if old != text:
-        with open(path, 'w') as f:
-            f.write(text)
-    return old != text, translated, untranslated
+    changed = _write(path, text)
+    try:
+        ctext, ctr, cun = translate_checkers(repo)
+    except Exception as e:
+        ctext = ('import Model.PyPrim\n/-! GENERATED by harness/pytolean.py: translation failed: %s -/\n'
+                 'namespace Vakt.GenCheckers\ndef translatedCheckers : List String := []\n'
+                 'def untranslatedCheckers : List (String × String) := []\nend Vakt.GenCheckers\n'
+                 % str(e).replace('-/', '- /')[:300])
+        ctr, cun = [], [('checker', '*', str(e))]
+    changed = _write(os.path.join(lean_dir, 'Gen', 'Checkers.lean'), ctext) or changed
+    return changed, translated + ctr, untranslated + cun
 
 
 if __name__ == '__main__':
     repo = sys.argv[1] if len(sys.argv) > 1 else os.environ.get('VAKT_REPO', '/repo')
     text, tr, un = translate(repo)
+    if '--checkers' in sys.argv:
+        text, tr, un = translate_checkers(repo)
     sys.stdout.write(text)
     sys.stderr.write('translated %d, untranslated %d: %r\n' % (len(tr), len(un), un))
